@@ -61,6 +61,7 @@ theorem C04_at_most_once (i : In) : (committed (apply i).calls i.script).Sublist
   · simp [committed]
   · simp [committed]
   · exact committed_storePhase_sublist _ _
+  · simp [committed]
 
 theorem C04_at_most_once_count (i : In) (d : Delta) :
     (committed (apply i).calls i.script).count d ≤ i.deltas.count d :=
@@ -94,6 +95,49 @@ theorem C04_fix_conservative (ds : List Delta) (sc : List Outcome)
     cases e <;> cases c <;> simp_all [Outcome.wellFormed, Cnt.val]
 
 example : ∀ o ∈ [Outcome.raise, .ret (.ok 1) (.ok 0)], o.wellFormed = true := by decide
+
+/-! ## canonical order is preserved (T4 → Apply composition) -/
+
+/-- With a usable store the first call is the approved list verbatim (same elements, same order). -/
+theorem C04_batch_is_approved_verbatim (i : In) (hs : i.store = .fn) :
+    (apply i).calls.head? = some i.deltas := by
+  rw [C04_handoff]; unfold handoff; simp only [hs]; split <;> rfl
+
+/-- Whatever follows the batch is the approved list again, one by one, in the same order. -/
+theorem C04_fallback_same_order (i : In) :
+    ((apply i).calls.drop 1).flatten = i.deltas ∨ (apply i).calls.drop 1 = [] := by
+  rw [C04_handoff]; unfold handoff
+  cases i.store <;> simp
+  split
+  · right; rfl
+  · left; exact flatten_singles _
+
+/-- Hence a canonically sorted approved list (T4's output, C03) reaches the store canonically
+sorted: for any key function, every call the store receives is sorted. -/
+theorem C04_canonical_order_preserved (i : In) (key : Delta → List Nat)
+    (h : keysSortedB (i.deltas.map key) = true) :
+    ∀ c ∈ (apply i).calls, keysSortedB (c.map key) = true := by
+  rw [C04_handoff]; unfold handoff
+  intro c hc
+  cases hs : i.store <;> simp only [hs] at hc <;> try (simp at hc)
+  split at hc
+  · simp at hc; subst hc; exact h
+  · simp only [List.mem_cons, singles, List.mem_map] at hc
+    rcases hc with hc | ⟨d, _, hd⟩
+    · subst hc; exact h
+    · subst hd; rfl
+
+/-- The composition monitor holds of the model whenever T4's output is sorted. -/
+theorem C04_canon_monitor_holds (i : In) (key : Delta → List Nat) (hs : i.store = .fn)
+    (h : keysSortedB (i.deltas.map key) = true) :
+    canonHandoffB (i.deltas.map key) ((apply i).calls.map (·.map key)) = true := by
+  rw [C04_handoff]; unfold handoff; simp only [hs]
+  split
+  · simp [canonHandoffB, h]
+  · simp [canonHandoffB, h, singles, Function.comp_def]
+
+example : keysSortedB [[110, 58, 97], [110, 58, 98], [110, 58, 98, 49]] = true := by decide
+example : keysSortedB [[110, 58, 98], [110, 58, 97]] = false := by decide
 
 /-! ## version discipline -/
 
@@ -151,6 +195,41 @@ theorem C04_total (i : In) :
 theorem C04_never_raises_without_snapshot_fault (i : In) (h : i.snapFault = false) :
     (apply i).raised = false := by
   simp [apply, h]
+
+/-- **Which store faults may propagate: none.**  The store surface touched by the apply → snapshot
+path is `apply_deltas` (lookup and call, batch and per-delta, raising or returning garbage),
+`export_state` (missing / raising / returning something unserialisable / lookup raising) and `w`
+(missing / malformed keys / unconvertible values / lookup raising).  For every combination of
+these — i.e. for every `i` — `apply_changes` raises only if the snapshot *file write* itself
+fails (`snapFault`: an OS-level I/O failure in `write_snapshot`, not a store fault). -/
+theorem C04_store_faults_never_propagate (i : In) (h : i.snapFault = false) :
+    (apply i).raised = false ∧ (apply i).version = bump i.ver ∧ (apply i).calls = handoff i :=
+  ⟨C04_never_raises_without_snapshot_fault i h, rfl, C04_handoff i⟩
+
+/-- The export side of the store surface influences nothing but the `store` section of the
+snapshot file: calls, counters, version, invalidation, cadence and `raised` are the same for all
+`export_state` / `w` behaviours. -/
+theorem C04_export_faults_only_touch_snapshot_section (i : In) (e : ExportMode) (w : WMode) :
+    let o := apply i
+    let o' := apply { i with exportMode := e, wMode := w }
+    o'.calls = o.calls ∧ o'.applied = o.applied ∧ o'.clamps = o.clamps ∧ o'.version = o.version ∧
+    o'.invalidated = o.invalidated ∧ o'.cm = o.cm ∧ o'.snap = o.snap ∧ o'.raised = o.raised :=
+  ⟨rfl, rfl, rfl, rfl, rfl, rfl, rfl, rfl⟩
+
+/-- A store whose `apply_deltas` lookup raises is treated like a store without the API: nothing is
+handed over, the version is still bumped. -/
+theorem C04_attr_fault_is_no_api (i : In) (h : i.store = .attrRaises) :
+    (apply i).calls = [] ∧ (apply i).version = bump i.ver :=
+  ⟨C04_no_store_no_calls i (by simp [h]), rfl⟩
+
+/-- A snapshot is written with a degraded (`{}`) store section rather than not at all. -/
+theorem C04_snapshot_written_despite_export_fault (i : In) (h : i.snapFault = false)
+    (hc : shouldSnapshot i.turn i.every = true) :
+    (apply i).snapStore = some (storeSection i) := by
+  simp [apply, h, hc]
+
+example : (apply ⟨.fn, .absent, some 4, 2, false, none, none, none, false, [], [], .raises, .badValue⟩).snapStore
+    = some .empty := by decide
 
 /-- Errors inside the store never skip the version bump — nor does the snapshot fault. -/
 theorem C04_version_bumped_even_if_raised (i : In) (_h : (apply i).raised = true) :
@@ -230,10 +309,10 @@ theorem C04_invalidate_off (i : In) (ha : invActive i = false) :
 
 /-- A failing cache manager never fails apply and never blocks the version bump (cf. `C04_total`):
 the failing call just ends the loop; what was invalidated before stays counted. -/
-example : (apply ⟨.fn, .absent, none, 1, true, some [0, 1], some [(0, 2), (1, 3)], some 1, false, [], []⟩).invalidated
+example : (apply ⟨.fn, .absent, none, 1, true, some [0, 1], some [(0, 2), (1, 3)], some 1, false, [], [], .absent, .absent⟩).invalidated
     = 2 := by decide
 
-example : (apply ⟨.fn, .absent, none, 1, true, some [1, 0, 1], some [(0, 2), (1, 3)], none, false, [], []⟩).cm
+example : (apply ⟨.fn, .absent, none, 1, true, some [1, 0, 1], some [(0, 2), (1, 3)], none, false, [], [], .absent, .absent⟩).cm
     = some [(0, 0), (1, 0)] := by decide
 
 /-! ## the monitor evaluated on the implementation holds of the model -/
